@@ -25,6 +25,9 @@ func init() {
 				if vpB(cm, "customPrefix") {
 					cfg.ProxyPrefix = "/_gate"
 				}
+				if vpB(cm, "rp") {
+					cfg.ReverseProxy, cfg.RealIPHeader = true, "X-Real-IP"
+				}
 				if permissive {
 					cfg.EmailDomains = []string{"*"}
 					cfg.AllowedGroups = nil
@@ -176,6 +179,18 @@ func init() {
 				req := vpReq{Method: vpS(in, "method"), Target: path, Cookie: cookie, Header: hdr}
 				bp := vpS(in, "bypass")
 				if bp == "ip" || (bp == "route" && vpS(in, "endpoint") != "proxy") {
+					if vpB(cm, "rp") {
+						// reverse-proxy mode: the client address travels in the configured header, the peer is the (untrusted) front proxy
+						req.Header = append(req.Header, [2]string{"X-Real-Ip", "198.51.100.77"})
+					} else {
+						req.RemoteAddr = "198.51.100.77:4000"
+					}
+				}
+				switch bp {
+				case "peer_garbage":
+					req.RemoteAddr = "198.51.100.77:4000"
+					req.Header = append(req.Header, [2]string{"X-Real-Ip", "not-an-address"})
+				case "peer_absent":
 					req.RemoteAddr = "198.51.100.77:4000"
 				}
 				switch bp {
